@@ -277,6 +277,7 @@ class RMWaitWorld(CompWorld):
         self.res = []                  # reservation objects (direct and taken inside callbacks), with owner tag
         self.pool = {r: [0, n] for r, n in pools}
         self.waiting = []              # reference: [cid, req index, kind] in registration order
+        self.shared = {}               # request index -> the one callback object shared by 'shared' registrations
         self.ncb = 0
         self.log = []
         self.dirty = False             # something happened since the last drain
@@ -372,7 +373,17 @@ class RMWaitWorld(CompWorld):
         rm, env = self.rm, self.env
         self.log = []
         self.late_registered = []
-        if k == 'wait':
+        if k == 'wait' and label[2] == 'shared':
+            # ONE callback object used for every registration of that request (equal request, same callable)
+            cb = self.shared.get(label[1])
+            if cb is None:
+                cb = self.shared[label[1]] = WaitCallback(self, -(label[1] + 1), 'noop', label[1])
+            self.waiting.append([cb.cid, label[1], 'noop'])
+            mine = copy.deepcopy(self.requests[label[1]])
+            rm.reserve_resources_with_callback(mine, cb)
+            self.dirty = True
+            self.facts.append('registered')
+        elif k == 'wait':
             self.ncb += 1
             cb = WaitCallback(self, self.ncb, label[2], label[1])
             self.waiting.append([cb.cid, label[1], label[2]])
